@@ -15,13 +15,13 @@ LEVEL = "exploration"
 RULE = (
     "case = loop shape (self loop, 2-4 stage cycle, loop with side branch and fan-in, forward jump over a diamond) x "
     "requested iterations 0..limit+3 x _max_jumps in {absent,0,1,2,3,10} at workflow or stage level x (FIFO / shuffled "
-    "delivery with withheld acks / one message held back). Oracles: effective jumps <= limit; limit reached => source "
+    "delivery with withheld acks / one message held back / 2-4 worker threads interleaved at SQL-statement granularity). Oracles: effective jumps <= limit; limit reached => source "
     "TERMINAL and workflow final; per-iteration ledger counts of every stage of the independently computed re-arm set "
     "== 1, stages outside it never re-run; forward jump: bypassed stages SKIPPED and never executed. Non-trivial = >=1 "
     "jump requested; distinct = (shape, body size, requested, limit, level, order class)."
 )
 ASSUMPTIONS = ["SQLite backend", "iteration of an execution = number of durable ->NOT_STARTED re-arm rows of its stage before it (audit log)"]
-MIN_OBS = {"effective_jumps": {"quick": 500, "thorough": 5000}, "limit_hits": {"quick": 30, "thorough": 300}}
+MIN_OBS = {"effective_jumps": {"quick": 500, "thorough": 5000}, "limit_hits": {"quick": 30, "thorough": 300}, "interleaved_runs": {"quick": 100, "thorough": 1000}}
 TIMEOUT = {"quick": 600, "thorough": 3000}
 DEFAULT_LIMIT = 10
 
@@ -69,7 +69,7 @@ def gen_cases(tier: str, seed: int) -> list[dict]:
                         continue
                     if times > 13 and times != 10**6:
                         continue
-                    for order in ("fifo", "random", "hold"):
+                    for order in ("fifo", "random", "hold", "race"):
                         cases.append({"shape": shape, "body": rng.randint(2, 4), "times": times, "max_jumps": mj, "level": rng.choice(["wf", "stage"]), "order": order, "listing": rng.choice(["topo", "reversed", "shuffled"]), "seed": rng.randrange(1 << 30)})
     return cases
 
@@ -95,8 +95,18 @@ def run_case(case: dict) -> dict:
     if order == "hold":
         hold = {"type": rng.choice(["CompleteTask", "CompleteStage", "StartStage", "JumpToStage", "RunTask"]), "nth": rng.randrange(0, 4), "steps": rng.choice([4, 12, 30])}
         order = "random"
-    run = delivery_run(spec, seed=case["seed"], order=order, noack_p=0.0 if case["order"] == "fifo" else 0.2, hold=hold, max_steps=1500)
     obs: Counter = Counter({"evaluations": 1})
+    if order == "race":
+        # the same loop run by 2-4 worker threads interleaved at SQL-statement granularity
+        from .. import interleave as il
+
+        run, info = il.race_run(spec, rng, max_msgs=1500)
+        if run is None:
+            obs["scheduler_failed"] += 1
+            return {"violations": [], "obs": dict(obs), "keys": [], "inconclusive": info.get("failed")}
+        obs["interleaved_runs"] += 1
+    else:
+        run = delivery_run(spec, seed=case["seed"], order=order, noack_p=0.0 if case["order"] == "fifo" else 0.2, hold=hold, max_steps=1500)
     out = []
     limit = DEFAULT_LIMIT if case["max_jumps"] is None else case["max_jumps"]
     times = case["times"]
